@@ -3,7 +3,7 @@
 From Coq Require Import Ascii String List Bool Arith ZArith NArith QArith.
 From PTBase Require Import Exn PyStr PyNum PyVal Fmt FixedFormat.
 From Gen Require Import GenTables GenMulgrid.
-From P Require Import Flt Lines MulgridIO RoundTrip Header Idem Fields Natural Canon Feet Rounding RealIdem NatIdem Examples NameLists SciIdem HdrIdem HdrOk ErrBound Margin Feet2.
+From P Require Import Flt Lines MulgridIO RoundTrip Header Idem Fields Natural Canon Feet Rounding RealIdem NatIdem Examples NameLists SciIdem HdrIdem HdrOk ErrBound Margin Feet2 Second.
 Import ListNotations.
 
 (** ** finite obligations over the regenerated tables *)
@@ -233,6 +233,37 @@ Print Assumptions coordinates_close.
 Theorem feet_error_numbers : (err feet_scale (sp "node" 1) <= 1525 # 1000000 /\ err feet_scale (sp "well" 1) <= 1525 # 100000)%Q.
 Proof. exact feet_errors. Qed.
 Print Assumptions feet_error_numbers.
+
+(** ** round 6: the last evaluated hypothesis removed for layers whose centre does not print as zero *)
+(** [centres_ok] (the one check of [aidem_ok] that ran the formatter) follows from integer arithmetic on
+    the doubles: every layer centre / scale, rounded half-even to the decimals of the field, is non-zero *)
+Theorem layer_centres_nonzero_suffice : forall g, centres_nonzero g = true -> centres_ok g = true.
+Proof. exact centres_nonzero_ok. Qed.
+Print Assumptions layer_centres_nonzero_suffice.
+(** ... which holds as soon as |centre / scale| (= m * 2^e = num/den) exceeds half a unit of the last printed decimal *)
+Theorem centre_prints_nonzero_arith : forall p m e, (0 <= m)%Z ->
+  (snd (num_den m e) < 2 * (fst (num_den m e) * pow10 p))%Z -> (0 < rN p m e)%Z.
+Proof. exact prints_nonzero_above_half_unit. Qed.
+Print Assumptions centre_prints_nonzero_arith.
+(** second write byte for byte with NOTHING evaluated in the hypothesis ([aidem_arith]: awf, supported type,
+    header reals fit, right-justified names, no layer centre prints as zero) *)
+Theorem mulgrid_write_idem_arith : forall g, aidem_arith g = true -> write (canon g) = write g.
+Proof. exact write_idem_pure. Qed.
+Print Assumptions mulgrid_write_idem_arith.
+(** end to end, as the property words it: the file written for g reads back (as canon g), and writing
+    the re-read geometry gives THE SAME BYTES b -- the file is a fixed point of read-then-write *)
+Theorem mulgrid_second_file : forall g b, aidem_ok g = true -> write g = Ok b ->
+  read b = Ok (canon g) /\ write (canon g) = Ok b.
+Proof. exact second_file_same. Qed.
+Print Assumptions mulgrid_second_file.
+(** ... and on the arithmetic class the first write does succeed *)
+Theorem mulgrid_second_file_total : forall g, aidem_arith g = true ->
+  exists b, write g = Ok b /\ read b = Ok (canon g) /\ write (canon g) = Ok b.
+Proof. exact second_file_total. Qed.
+Print Assumptions mulgrid_second_file_total.
+Theorem hypotheses_satisfiable_round6 : aidem_arith ex_geo2 = true.
+Proof. exact ex_geo2_aidem_arith. Qed.
+Print Assumptions hypotheses_satisfiable_round6.
 
 (** ** the hypotheses are satisfiable: a concrete geometry in feet with a specified centre,
     a raised surface, a layer centred on 0.0 and a well *)
